@@ -359,11 +359,12 @@ Definition reject_b_with (dup_eqb : Z * variant -> Z * variant -> bool) (w : Z) 
   negb (count is_default vs <? 2)%nat || negb (count is_catch_all vs <? 2)%nat ||
   (negb use_try && negb (has_fallback vs || bits_covered w vs)).
 
-Lemma enum_check_with_reject : forall dup_eqb obj fld w e t, w < 127 ->
-  (exists err, enum_check_with dup_eqb obj fld w e t = VErr err) <->
-  reject_b_with dup_eqb w (e_variants e) t = true.
+(* the generalised pass: an error is either one of the historical tests or the inserted test [mid] *)
+Lemma enum_check_gen_reject : forall dup_eqb mid obj fld w e t, w < 127 ->
+  (exists err, enum_check_gen dup_eqb mid obj fld w e t = VErr err) <->
+  (reject_b_with dup_eqb w (e_variants e) t = true \/ mid (seen_values (e_variants e)) <> None).
 Proof.
-  intros dup_eqb obj fld w e t Hw. unfold enum_check_with, reject_b_with.
+  intros dup_eqb mid obj fld w e t Hw. unfold enum_check_gen, reject_b_with.
   assert (127 <=? w = false) as -> by lia.
   assert (w <=? 128 = true) as -> by lia. cbn [negb].
   destruct (e_variants e) as [|v0 vs0] eqn:Evs; [cbn; split; eauto|].
@@ -375,6 +376,10 @@ Proof.
       apply too_high_find in Ex. congruence. }
     cbn. split; eauto.
   - apply too_high_find in Ef. rewrite Ef. cbn [orb].
+    destruct (mid (seen_values (e_variants e))) as [merr|] eqn:Em.
+    { split; [intros _; right; discriminate|eauto]. }
+    assert (forall P : Prop, (P \/ @None gen_error <> None) <-> P) as Hnone by (intros P; split; [intros [H|H]; [exact H|congruence]|auto]).
+    rewrite Hnone.
     destruct (count is_default (e_variants e) <? 2)%nat; cbn [negb orb]; [|split; eauto].
     destruct (count is_catch_all (e_variants e) <? 2)%nat; cbn [negb orb]; [|split; eauto].
     unfold enum_style. destruct (has_fallback (e_variants e) || bits_covered w (e_variants e)); cbn [negb andb].
@@ -382,19 +387,32 @@ Proof.
     + destruct t; cbn; split; eauto; try discriminate. intros [err H]; discriminate.
 Qed.
 
-Lemma enum_check_with_verdicts : forall dup_eqb obj fld w e t, w < 127 ->
-  enum_check_with dup_eqb obj fld w e t = VOk \/ exists err, enum_check_with dup_eqb obj fld w e t = VErr err.
+Lemma enum_check_with_reject : forall dup_eqb obj fld w e t, w < 127 ->
+  (exists err, enum_check_with dup_eqb obj fld w e t = VErr err) <->
+  reject_b_with dup_eqb w (e_variants e) t = true.
 Proof.
   intros dup_eqb obj fld w e t Hw. unfold enum_check_with.
+  rewrite enum_check_gen_reject by exact Hw. split; [intros [H|H]; [exact H|congruence]|auto].
+Qed.
+
+Lemma enum_check_gen_verdicts : forall dup_eqb mid obj fld w e t, w < 127 ->
+  enum_check_gen dup_eqb mid obj fld w e t = VOk \/ exists err, enum_check_gen dup_eqb mid obj fld w e t = VErr err.
+Proof.
+  intros dup_eqb mid obj fld w e t Hw. unfold enum_check_gen.
   assert (127 <=? w = false) as -> by lia.
   assert (w <=? 128 = true) as -> by lia. cbn [negb].
   destruct (e_variants e); [eauto|].
   destruct (has_dup _ _); [eauto|].
   destruct (find _ _) as [[n0 v1]|]; [eauto|].
+  destruct (mid _); [eauto|].
   destruct (_ <? _)%nat; cbn [negb]; [|eauto].
   destruct (_ <? _)%nat; cbn [negb]; [|eauto].
   destruct (enum_style _ _); [destruct t|]; eauto.
 Qed.
+
+Lemma enum_check_with_verdicts : forall dup_eqb obj fld w e t, w < 127 ->
+  enum_check_with dup_eqb obj fld w e t = VOk \/ exists err, enum_check_with dup_eqb obj fld w e t = VErr err.
+Proof. intros dup_eqb obj fld w e t Hw. unfold enum_check_with. apply enum_check_gen_verdicts. exact Hw. Qed.
 
 Lemma ge2_ltb : forall n, (n >= 2)%nat <-> negb (n <? 2)%nat = true.
 Proof.
@@ -452,6 +470,29 @@ Qed.
 (* 4. What acceptance implies                                           *)
 (* ================================================================== *)
 
+Lemma enum_check_gen_ok_inv : forall dup_eqb mid obj fld w e t,
+  enum_check_gen dup_eqb mid obj fld w e t = VOk ->
+  w < 127 /\ e_variants e <> [] /\ has_dup dup_eqb (seen_values (e_variants e)) = false /\
+  existsb (fun n => highest w <? n) (numbers (e_variants e)) = false /\
+  (count is_default (e_variants e) < 2)%nat /\ (count is_catch_all (e_variants e) < 2)%nat /\
+  (t = false -> enum_style w (e_variants e) = GInfallible w) /\
+  mid (seen_values (e_variants e)) = None.
+Proof.
+  intros dup_eqb mid obj fld w e t. unfold enum_check_gen.
+  destruct (127 <=? w) eqn:Ew; [discriminate|].
+  destruct (w <=? 128); cbn [negb]; [|discriminate].
+  destruct (e_variants e) as [|v0 vs0] eqn:Evs; [discriminate|]. rewrite <- Evs.
+  destruct (has_dup dup_eqb (seen_values (e_variants e))); [discriminate|].
+  destruct (find (fun p => highest w <? fst p) (seen_values (e_variants e))) as [[n0 v1]|] eqn:Ef; [discriminate|].
+  apply too_high_find in Ef.
+  destruct (mid (seen_values (e_variants e))) as [merr|] eqn:Em; [discriminate|].
+  destruct (count is_default (e_variants e) <? 2)%nat eqn:Ed; cbn [negb]; [|discriminate].
+  destruct (count is_catch_all (e_variants e) <? 2)%nat eqn:Ec; cbn [negb]; [|discriminate].
+  apply Nat.ltb_lt in Ed, Ec. intros H.
+  repeat split; try assumption; try lia; try congruence.
+  intros ->. unfold enum_style in *. destruct (has_fallback (e_variants e) || bits_covered w (e_variants e)); [reflexivity|discriminate].
+Qed.
+
 Lemma enum_check_ok_inv : forall dup_eqb obj fld w e t,
   enum_check_with dup_eqb obj fld w e t = VOk ->
   w < 127 /\ e_variants e <> [] /\ has_dup dup_eqb (seen_values (e_variants e)) = false /\
@@ -459,18 +500,7 @@ Lemma enum_check_ok_inv : forall dup_eqb obj fld w e t,
   (count is_default (e_variants e) < 2)%nat /\ (count is_catch_all (e_variants e) < 2)%nat /\
   (t = false -> enum_style w (e_variants e) = GInfallible w).
 Proof.
-  intros dup_eqb obj fld w e t. unfold enum_check_with.
-  destruct (127 <=? w) eqn:Ew; [discriminate|].
-  destruct (w <=? 128); cbn [negb]; [|discriminate].
-  destruct (e_variants e) as [|v0 vs0] eqn:Evs; [discriminate|]. rewrite <- Evs.
-  destruct (has_dup dup_eqb (seen_values (e_variants e))); [discriminate|].
-  destruct (find (fun p => highest w <? fst p) (seen_values (e_variants e))) as [[n0 v1]|] eqn:Ef; [discriminate|].
-  apply too_high_find in Ef.
-  destruct (count is_default (e_variants e) <? 2)%nat eqn:Ed; cbn [negb]; [|discriminate].
-  destruct (count is_catch_all (e_variants e) <? 2)%nat eqn:Ec; cbn [negb]; [|discriminate].
-  apply Nat.ltb_lt in Ed, Ec. intros H.
-  repeat split; try assumption; try lia; try congruence.
-  intros ->. unfold enum_style in *. destruct (has_fallback (e_variants e) || bits_covered w (e_variants e)); [reflexivity|discriminate].
+  intros dup_eqb obj fld w e t H. unfold enum_check_with in H. apply enum_check_gen_ok_inv in H. tauto.
 Qed.
 
 Lemma first_verdict_ok {A} (f : A -> verdict) : forall l,
@@ -733,35 +763,63 @@ Qed.
 Lemma pow2_mono : forall a b, 0 <= a <= b -> 2 ^ a <= 2 ^ b.
 Proof. intros a b H. apply Z.pow_le_mono_r; lia. Qed.
 
-(* C07_infallible_getter_total *)
-Theorem infallible_getter_total : forall d f name p,
-  enum_values_check d = VOk ->
-  conv_choice (collect_enums d) f = CMUnsafeInto name ->
-  0 <= p < 2 ^ field_width f ->
-  (f_base f = BInt -> field_width f = carrier_bits (field_width f) ->
-   forall ee v, resolve (emitted_enums d) name = Some ee -> In v (ee_variants ee) ->
-                ev_num v <= 2 ^ (field_width f - 1) - 1) ->
-  exists x, getter d f p = Ok x.
+(* what the current rule (6916a8d) guarantees when it chooses the unchecked conversion: EVERY generated enum of
+   that name is Infallible{bits} with width(f) <= bits *)
+Lemma conv_choice_unsafe_inv : forall enums f name,
+  conv_choice enums f = CMUnsafeInto name ->
+  forall e, In e (named_enums enums name) ->
+  exists bits, e_style e = Some (GInfallible bits) /\ field_width f <= bits.
 Proof.
-  intros d f name p Hacc Hch Hp Hlit. unfold getter, getter_with. rewrite Hch.
-  destruct (resolve (emitted_enums d) name) as [ee|] eqn:Er; [|eauto].
-  unfold conv_choice in Hch.
+  intros enums f name Hch e Hin. unfold conv_choice in Hch.
   destruct (f_conv f) as [c|]; [|destruct (f_base f); discriminate].
   destruct (conv_use_try c); [discriminate|].
-  destruct (find_enum (collect_enums d) (conv_type_name c)) as [e|] eqn:Efe; [|discriminate].
-  destruct (e_style e) as [[|bits]|] eqn:Est; try discriminate.
-  destruct (field_width f <=? bits) eqn:Ew; [|discriminate].
-  inversion Hch; subst name. clear Hch.
-  unfold collect_enums in Efe. apply find_enum_site in Efe. destruct Efe as (s & Hin & -> & Hres).
-  fold (collect_enums d) in Hres. fold (emitted_enums d) in Hres. rewrite Hres in Er. inversion Er; subst ee. clear Er.
-  cbn [styled e_style] in Est. inversion Est as [Hst]. clear Est.
+  destruct (named_enums enums (conv_type_name c)) as [|e0 l] eqn:En; [discriminate|].
+  destruct (forallb (infallible_for (field_width f)) (e0 :: l)) eqn:Ef; [|discriminate].
+  inversion Hch; subst name. rewrite En in Hin.
+  rewrite forallb_forall in Ef. specialize (Ef e Hin). unfold infallible_for in Ef.
+  destruct (e_style e) as [[|bits]|]; try discriminate. exists bits. split; [reflexivity|lia].
+Qed.
+
+Lemma resolve_sites : forall l name ee,
+  resolve (map (fun s => transform_enum (styled s) (f_base (s_field s)) (s_width s)) l) name = Some ee ->
+  exists s, In s l /\ e_name (s_enum s) = name /\ ee = transform_enum (styled s) (f_base (s_field s)) (s_width s).
+Proof.
+  intros l name ee H. unfold resolve in H. apply find_some in H. destruct H as [Hin Hn].
+  apply in_map_iff in Hin. destruct Hin as (s & <- & Hs). exists s. split; [assumption|]. split; [|reflexivity].
+  apply String.eqb_eq in Hn. exact Hn.
+Qed.
+
+Lemma named_enums_site : forall d s,
+  In s (enum_sites d) -> In (styled s) (named_enums (collect_enums d) (e_name (s_enum s))).
+Proof.
+  intros d s Hs. unfold named_enums, collect_enums. apply in_map_iff.
+  exists (styled s, f_base (s_field s), s_width s). split; [reflexivity|].
+  apply filter_In. split.
+  - apply in_map_iff. exists s. split; [reflexivity|assumption].
+  - cbn [fst]. change (e_name (styled s)) with (e_name (s_enum s)). apply String.eqb_refl.
+Qed.
+
+(* the core: an accepted site analysed Infallible{bits} converts every bit pattern of a field at most bits wide *)
+Lemma unsafe_site_total : forall d s f p bits,
+  enum_values_check d = VOk -> In s (enum_sites d) ->
+  enum_style (s_width s) (s_variants s) = GInfallible bits -> field_width f <= bits ->
+  0 <= p < 2 ^ field_width f ->
+  (f_base f = BInt -> field_width f = carrier_bits (field_width f) ->
+   forall v, In v (ee_variants (transform_enum (styled s) (f_base (s_field s)) (s_width s))) ->
+             ev_num v <= 2 ^ (field_width f - 1) - 1) ->
+  exists x, match from_num (transform_enum (styled s) (f_base (s_field s)) (s_width s))
+                           (raw_of_pattern (f_base f) (field_width f) p) with
+            | CVal x => Ok (GEnum x)
+            | CErr _ _ => Fail UB_unwrap_unchecked
+            end = Ok x.
+Proof.
+  intros d s f p bits Hacc Hin Hst Ew Hp Hlit.
   pose proof (accepted_sites d s Hacc Hin) as Hok. apply enum_check_ok_inv in Hok.
   assert (0 <= s_width s) as Hws by (unfold s_width, field_width; destruct (_ <? _) eqn:E; lia).
   destruct (infallible_iff_total (s_width s) (s_variants s) Hws) as (_ & Hb & _).
   pose proof (Hb bits Hst) as Hbits. subst bits.
   assert (0 <= field_width f) as Hwf by (unfold field_width; destruct (_ <? _) eqn:E; lia).
-  assert (field_width f <= s_width s) as Hle by lia.
-  pose proof (pow2_mono (field_width f) (s_width s) (conj Hwf Hle)) as Hpow.
+  pose proof (pow2_mono (field_width f) (s_width s) (conj Hwf Ew)) as Hpow.
   set (ee := transform_enum (styled s) (f_base (s_field s)) (s_width s)) in *.
   assert (ee_variants ee = emit_variants (s_variants s)) as Hvs.
   { unfold ee, transform_enum, styled. cbn [ee_variants e_variants]. apply emit_variants_mutated. }
@@ -779,10 +837,63 @@ Proof.
   assert (0 < 2 ^ s_width s) as Hpos by (apply Z.pow_pos_nonneg; lia).
   assert (In (2 ^ s_width s - 1) (numbers (s_variants s))) as Hn by (apply Ec'; lia).
   rewrite <- numbers_emit, <- Hvs in Hn. apply in_map_iff in Hn. destruct Hn as (v & Hv & Hinv).
-  specialize (Hlit eq_refl Efull ee v eq_refl Hinv).
+  specialize (Hlit eq_refl Efull v Hinv).
   pose proof (carrier_bits_ge8 (field_width f)) as H8. rewrite <- Efull in H8.
   assert (2 ^ (field_width f - 1) < 2 ^ field_width f) as Hlt by (apply Z.pow_lt_mono_r; lia).
   lia.
+Qed.
+
+(* C07_infallible_getter_total_any_build: the full statement, for EVERY build.  Whichever same-named enum is
+   present in the build [env] is one of the enums the rule quantified over. *)
+Theorem infallible_getter_total_any_build : forall env d f name p,
+  enum_values_check d = VOk ->
+  conv_choice (collect_enums d) f = CMUnsafeInto name ->
+  0 <= p < 2 ^ field_width f ->
+  (f_base f = BInt -> field_width f = carrier_bits (field_width f) ->
+   forall ee v, resolve (emitted_enums_env env d) name = Some ee -> In v (ee_variants ee) ->
+                ev_num v <= 2 ^ (field_width f - 1) - 1) ->
+  exists x, getter_env env d f p = Ok x.
+Proof.
+  intros env d f name p Hacc Hch Hp Hlit. unfold getter_env, getter_with. rewrite Hch. cbn [getter_of_method].
+  destruct (resolve (emitted_enums_env env d) name) as [ee|] eqn:Er; [|eauto].
+  unfold emitted_enums_env in Er. pose proof (resolve_sites _ _ _ Er) as (s & Hs & Hname & Hee).
+  apply filter_In in Hs. destruct Hs as [Hin _].
+  pose proof (named_enums_site d s Hin) as Hnamed. rewrite Hname in Hnamed.
+  destruct (conv_choice_unsafe_inv _ _ _ Hch _ Hnamed) as (bits & Hst & Hle).
+  cbn [styled e_style] in Hst. inversion Hst as [Hst']. subst ee.
+  apply (unsafe_site_total d s f p bits Hacc Hin Hst' Hle Hp).
+  intros Hb Hfull v Hv. exact (Hlit Hb Hfull _ v eq_refl Hv).
+Qed.
+
+Lemma emitted_enums_sites' : forall d,
+  emitted_enums d = map (fun s => transform_enum (styled s) (f_base (s_field s)) (s_width s)) (enum_sites d).
+Proof. intros d. unfold emitted_enums, collect_enums. rewrite map_map. reflexivity. Qed.
+
+Lemma filter_true {A} : forall l : list A, filter (fun _ => true) l = l.
+Proof. induction l as [|a t IH]; cbn; [reflexivity|]. f_equal. exact IH. Qed.
+
+Lemma emitted_enums_env_all : forall d, emitted_enums_env (fun _ => true) d = emitted_enums d.
+Proof.
+  intros d. unfold emitted_enums_env. rewrite emitted_enums_sites'. f_equal.
+  rewrite <- (filter_true (enum_sites d)) at 2. apply filter_ext. intros s. unfold site_on.
+  apply forallb_forall. intros c _. destruct c; reflexivity.
+Qed.
+
+(* C07_infallible_getter_total: all cfg-gated items present = the build in which every predicate holds *)
+Theorem infallible_getter_total : forall d f name p,
+  enum_values_check d = VOk ->
+  conv_choice (collect_enums d) f = CMUnsafeInto name ->
+  0 <= p < 2 ^ field_width f ->
+  (f_base f = BInt -> field_width f = carrier_bits (field_width f) ->
+   forall ee v, resolve (emitted_enums d) name = Some ee -> In v (ee_variants ee) ->
+                ev_num v <= 2 ^ (field_width f - 1) - 1) ->
+  exists x, getter d f p = Ok x.
+Proof.
+  intros d f name p Hacc Hch Hp Hlit.
+  assert (getter d f p = getter_env (fun _ => true) d f p) as ->
+    by (unfold getter, getter_env; rewrite emitted_enums_env_all; reflexivity).
+  apply (infallible_getter_total_any_build (fun _ => true) d f name p Hacc Hch Hp).
+  rewrite emitted_enums_env_all. exact Hlit.
 Qed.
 
 (* C07_error_payload: an error is produced only by enums with neither fallback, for unlisted numbers, and it
@@ -850,7 +961,8 @@ Proof.
   intros s Hs. unfold site_on. apply forallb_forall. intros c Hc. rewrite (Hfree s Hs c Hc). reflexivity.
 Qed.
 
-Theorem infallible_getter_total_any_build : forall env d f name p,
+(* C07_infallible_getter_total_partial (the strongest statement that was true before 6916a8d; now a corollary) *)
+Theorem infallible_getter_total_cfg_free : forall env d f name p,
   cfg_free d ->
   enum_values_check d = VOk ->
   conv_choice (collect_enums d) f = CMUnsafeInto name ->
@@ -862,4 +974,172 @@ Theorem infallible_getter_total_any_build : forall env d f name p,
 Proof.
   intros env d f name p Hfree Hacc Hch Hp Hlit. rewrite getter_env_cfg_free by assumption.
   eapply infallible_getter_total; eauto.
+Qed.
+
+(* ================================================================== *)
+(* 7. The pass after the repairs of D16 (717250d) and D17 (e1d126c)     *)
+(* ================================================================== *)
+
+Lemma find_fst_none {B} (f : Z -> bool) : forall l : list (Z * B),
+  find (fun p => f (fst p)) l = None <-> existsb f (map fst l) = false.
+Proof.
+  induction l as [|[n v] t IH]; cbn; [tauto|].
+  destruct (f n); cbn; [split; discriminate|exact IH].
+Qed.
+
+Lemma repr_mid_none : forall base obj fld w e vs,
+  repr_mid base obj fld w e (seen_values vs) = None <-> spec_unrepresentable_b base w vs = false.
+Proof.
+  intros base obj fld w e vs. unfold repr_mid, spec_unrepresentable_b, numbers.
+  destruct base.
+  - rewrite <- (find_fst_none (fun n => n <? 0)). cbn [unrepresentable_b].
+    destruct (find _ _) as [[n v]|]; split; congruence.
+  - rewrite <- (find_fst_none (fun n => n <? 0)). cbn [unrepresentable_b].
+    destruct (find _ _) as [[n v]|]; split; congruence.
+  - rewrite <- (find_fst_none (unrepresentable_b BInt w)). unfold unrepresentable_b, repr_min, repr_max.
+    destruct (find _ _) as [[n v]|]; split; congruence.
+Qed.
+
+Lemma unrepresentable_reflect : forall base w n, unrepresentable_b base w n = true <-> unrepresentable base w n.
+Proof. intros base w n. unfold unrepresentable_b, unrepresentable. destruct base; lia. Qed.
+
+Lemma spec_unrepresentable_reflect : forall base w vs,
+  spec_unrepresentable_b base w vs = true <-> spec_unrepresentable base w vs.
+Proof.
+  intros base w vs. unfold spec_unrepresentable_b, spec_unrepresentable. rewrite existsb_exists.
+  split; intros (n & Hin & H); exists n; split; auto; apply unrepresentable_reflect; assumption.
+Qed.
+
+Lemma spec_reject_repaired_reflect : forall base w vs t, 0 <= w ->
+  spec_reject_repaired_b base w vs t = true <-> spec_reject_repaired base w vs t.
+Proof.
+  intros base w vs t Hw. unfold spec_reject_repaired_b, spec_reject_repaired.
+  rewrite orb_true_iff, spec_reject_reflect, spec_unrepresentable_reflect by exact Hw. reflexivity.
+Qed.
+
+(* C15_reject_iff_after_repairs: the pass as it is now rejects exactly what the property says *)
+Theorem reject_iff_repaired : forall base obj fld w e t, 0 <= w < 127 ->
+  (exists err, enum_check_repaired base obj fld w e t = VErr err) <-> spec_reject_repaired base w (e_variants e) t.
+Proof.
+  intros base obj fld w e t Hw. unfold enum_check_repaired.
+  rewrite enum_check_gen_reject by lia. rewrite <- spec_reject_repaired_reflect by lia.
+  unfold spec_reject_repaired_b. rewrite orb_true_iff.
+  change (reject_b_with seen_eqb_fixed w (e_variants e) t) with (spec_reject_b w (e_variants e) t).
+  assert (repr_mid base obj fld w e (seen_values (e_variants e)) <> None <->
+          spec_unrepresentable_b base w (e_variants e) = true) as ->; [|reflexivity].
+  pose proof (repr_mid_none base obj fld w e (e_variants e)) as H.
+  destruct (repr_mid base obj fld w e (seen_values (e_variants e))), (spec_unrepresentable_b base w (e_variants e));
+    split; try congruence; intros _; try discriminate.
+  - exfalso. destruct H as [_ H]. specialize (H eq_refl). discriminate.
+  - exfalso. destruct H as [H _]. specialize (H eq_refl). discriminate.
+Qed.
+
+Theorem repaired_verdicts : forall base obj fld w e t, w < 127 ->
+  enum_check_repaired base obj fld w e t = VOk \/ exists err, enum_check_repaired base obj fld w e t = VErr err.
+Proof. intros. unfold enum_check_repaired. apply enum_check_gen_verdicts. assumption. Qed.
+
+(* acceptance only gets rarer: dropping the inserted test, or weakening the duplicate test, keeps an acceptance *)
+Lemma enum_check_gen_ok_weaken : forall dup1 dup2 mid obj fld w e t,
+  (has_dup dup1 (seen_values (e_variants e)) = false -> has_dup dup2 (seen_values (e_variants e)) = false) ->
+  enum_check_gen dup1 mid obj fld w e t = VOk -> enum_check_gen dup2 (fun _ => None) obj fld w e t = VOk.
+Proof.
+  intros dup1 dup2 mid obj fld w e t Hd. unfold enum_check_gen.
+  destruct (127 <=? w); [discriminate|].
+  destruct (w <=? 128); cbn [negb]; [|discriminate].
+  destruct (e_variants e) as [|v0 vs0] eqn:Evs; [discriminate|]. rewrite <- Evs in *.
+  destruct (has_dup dup1 (seen_values (e_variants e))); [discriminate|]. rewrite (Hd eq_refl).
+  destruct (find (fun p => highest w <? fst p) (seen_values (e_variants e))) as [[n0 v1]|]; [discriminate|].
+  destruct (mid (seen_values (e_variants e))); [discriminate|]. exact (fun H => H).
+Qed.
+
+(* every consequence of an acceptance by the older models carries over to the pass as it is now *)
+Theorem repaired_ok_implies_fixed_ok : forall base obj fld w e t,
+  enum_check_repaired base obj fld w e t = VOk -> enum_check_fixed obj fld w e t = VOk.
+Proof.
+  intros base obj fld w e t H. unfold enum_check_fixed, enum_check_with.
+  eapply enum_check_gen_ok_weaken; [|exact H]. exact (fun H => H).
+Qed.
+
+Theorem fixed_ok_implies_ok : forall obj fld w e t,
+  enum_check_fixed obj fld w e t = VOk -> enum_check obj fld w e t = VOk.
+Proof.
+  intros obj fld w e t H. unfold enum_check, enum_check_with.
+  eapply enum_check_gen_ok_weaken; [|exact H].
+  intros Hf. fold (spec_duplicate_b (e_variants e)) in Hf. rewrite has_dup_code_vs_spec in Hf.
+  apply orb_false_iff in Hf. exact (proj1 Hf).
+Qed.
+
+Theorem repaired_ok_implies_ok : forall base obj fld w e t,
+  enum_check_repaired base obj fld w e t = VOk -> enum_check obj fld w e t = VOk.
+Proof. intros base obj fld w e t H. eapply fixed_ok_implies_ok, repaired_ok_implies_fixed_ok, H. Qed.
+
+(* an accepted enum has only numbers its repr can hold (no D16, no D17), and no two equal numbers under one cfg *)
+Theorem repaired_ok_representable : forall base obj fld w e t,
+  enum_check_repaired base obj fld w e t = VOk -> ~ spec_unrepresentable base w (e_variants e).
+Proof.
+  intros base obj fld w e t H Hs. unfold enum_check_repaired in H. apply enum_check_gen_ok_inv in H.
+  destruct H as (_ & _ & _ & _ & _ & _ & _ & Hm). apply repr_mid_none in Hm.
+  apply spec_unrepresentable_reflect in Hs. congruence.
+Qed.
+
+Theorem repaired_ok_not_d12 : forall base obj fld w e t,
+  enum_check_repaired base obj fld w e t = VOk -> ~ d12_class (e_variants e).
+Proof.
+  intros base obj fld w e t H Hd. unfold enum_check_repaired in H. apply enum_check_gen_ok_inv in H.
+  destruct H as (_ & _ & Hdup & _). fold (spec_duplicate_b (e_variants e)) in Hdup.
+  rewrite has_dup_code_vs_spec in Hdup. apply orb_false_iff in Hdup.
+  apply d12_class_reflect in Hd. destruct Hdup. congruence.
+Qed.
+
+(* C15_repaired_accepts_less *)
+Theorem repaired_accepts_less : forall base obj fld w e use_try,
+  enum_check_repaired base obj fld w e use_try = VOk ->
+  enum_check_fixed obj fld w e use_try = VOk /\ enum_check obj fld w e use_try = VOk /\
+  ~ spec_unrepresentable base w (e_variants e) /\ ~ d12_class (e_variants e).
+Proof.
+  intros base obj fld w e use_try H. split; [|split; [|split]].
+  - exact (repaired_ok_implies_fixed_ok _ _ _ _ _ _ H).
+  - exact (repaired_ok_implies_ok _ _ _ _ _ _ H).
+  - exact (repaired_ok_representable _ _ _ _ _ _ H).
+  - exact (repaired_ok_not_d12 _ _ _ _ _ _ H).
+Qed.
+
+(* device level *)
+Theorem device_accept_iff_repaired : forall d,
+  enum_values_check_repaired d = VOk <->
+  Forall (fun s => enum_check_repaired (f_base (s_field s)) (s_obj s) (f_name (s_field s)) (s_width s) (s_enum s) (s_try s) = VOk)
+         (enum_sites d).
+Proof. intros d. unfold enum_values_check_repaired. apply (first_verdict_ok check_site_repaired). Qed.
+
+Theorem device_reject_site_repaired : forall d e,
+  enum_values_check_repaired d = VErr e ->
+  exists s, In s (enum_sites d) /\
+            enum_check_repaired (f_base (s_field s)) (s_obj s) (f_name (s_field s)) (s_width s) (s_enum s) (s_try s) = VErr e.
+Proof.
+  intros d e H. unfold enum_values_check_repaired in H.
+  apply (first_verdict_in check_site_repaired) in H; [|discriminate]. exact H.
+Qed.
+
+Theorem device_repaired_ok_implies_ok : forall d,
+  enum_values_check_repaired d = VOk -> enum_values_check_fixed d = VOk /\ enum_values_check d = VOk.
+Proof.
+  intros d H. apply device_accept_iff_repaired in H.
+  unfold enum_values_check_fixed, enum_values_check, enum_values_check_with.
+  split; apply first_verdict_ok; (eapply Forall_impl; [|exact H]); intros s Hs; unfold check_site_with.
+  - exact (repaired_ok_implies_fixed_ok _ _ _ _ _ _ Hs).
+  - exact (repaired_ok_implies_ok _ _ _ _ _ _ Hs).
+Qed.
+
+(* the same with the verdict of the pass as it is now *)
+Corollary infallible_getter_total_any_build_repaired : forall env d f name p,
+  enum_values_check_repaired d = VOk ->
+  conv_choice (collect_enums d) f = CMUnsafeInto name ->
+  0 <= p < 2 ^ field_width f ->
+  (f_base f = BInt -> field_width f = carrier_bits (field_width f) ->
+   forall ee v, resolve (emitted_enums_env env d) name = Some ee -> In v (ee_variants ee) ->
+                ev_num v <= 2 ^ (field_width f - 1) - 1) ->
+  exists x, getter_env env d f p = Ok x.
+Proof.
+  intros env d f name p Hacc. apply infallible_getter_total_any_build.
+  exact (proj2 (device_repaired_ok_implies_ok d Hacc)).
 Qed.
